@@ -314,7 +314,8 @@ PROPS = {
                    'and holds only ids reachable from v is the set reachable from v" gives the statement: the text is '
                    'format!(literal, v, join(lines, "\\n")) with exactly as many lines as the vertices reachable from v '
                    'have edges - each such vertex expanded once, each of its edges listed once. Every loop terminates.',
-        level_note='NOT decided: what each line of inspect() says (only their number, and the header); the group lines of '
+        level_note='NOT decided: a bijection between the lines of inspect() and the edges (their number is the number of edges and every '
+                   'line is format!(literal, label, target, marker) of an edge of the graph, re-indented once per level); the group lines of '
                    'Debug; the characters of every output (format! is an uninterpreted function of its literal and of the '
                    'Display texts of its arguments, T9; format!("{}", x) is the Display text of x). Trusted: Verus/Z3; '
                    '<[String]>::join as an uninterpreted function of parts and separator, Formatter::write_str appends, '
@@ -343,7 +344,8 @@ PROPS = {
                     'inspect-expands-every-target-and-only-reachable-vertices, inspect-vertex-is-marked-seen-before-its-edges-'
                     'are-walked, inspect-lists-every-edge-of-every-reachable-vertex-once, inspect-edge-loop, inspect-copy-loop; '
                     'lemmas L20-* (incl. L20-expanded-set-is-exactly-the-reachable-set).',
-        not_covered=['inspect(): the text of each line (which edge a line is for); only the number of lines and the header are decided',
+        not_covered=['inspect(): that the line of each edge occurs exactly once is decided by count + membership only (as many lines as '
+                     'edges, every line the line of some edge of the graph), not by a bijection; the marker and the literals are open',
                      'the group lines (b..: {..}) of Debug: only that they come after the vertex lines',
                      'the characters of the output (what format! does with its literal)'],
         assumptions=['the graph is well-formed (wf); v_print / inspect: v below the capacity; inspect: edge targets are ids '
@@ -375,8 +377,8 @@ PROPS = {
         design_ref='DESIGN.md §4 C17',
         trusted_base=[
             'shim/stdstr.rs: str::starts_with / str::parse::<usize> / Chars::count / String: FromIterator / Enumerate::next '
-            '(assume_specification + axioms); T13 wrappers __w_enumerate (vec::IntoIter<char>), __w_filter (slice::Iter<char>), '
-            '__w_len (str: UTF-8 length): external_body trait methods whose body is the std call',
+            '(assume_specification + axioms); T13 wrappers __w_enumerate (any iterator), __w_filter (slice::Iter<char>), '
+            '__w_len (str / String: UTF-8 length; arrays, Vec<char>: number of elements): external_body trait methods whose body is the std call',
             'axiom_dec_text: Display for usize writes a non-empty digit string that usize::from_str reads back; '
             'axiom_char_text: Display for char writes the character; axiom_fmt_one_slot: format! of "PREFIX{name}"',
             'vstd: str view, Chars / Skip / vec::IntoIter / slice::Iter prophetic iterator models, collect into Vec, arrays',
